@@ -304,7 +304,9 @@ def drift_eval(case, impl):
     glob_files = meta.get("glob_files")
     for mf in meta["files"]:
         # path arguments list every block of the files they match; the other files of the diff follow the diff-mode rules
-        in_globs = bool(meta.get("globs")) and (glob_files is None or mf["path"] in glob_files)
+        # (a hidden file is never reached by the walk: a path argument matching it adds nothing, the diff rules apply to it)
+        hidden = any(c.startswith(".") for c in mf["path"].split("/"))
+        in_globs = bool(meta.get("globs")) and (glob_files is None or mf["path"] in glob_files) and not hidden
         listed = {b["attrs"].get("name"): b for b in files.get(mf["path"], [])}
         adds, gaps = mf["adds"], mf["gaps"]
         F = faithful_walk(mf["segs"])
